@@ -221,6 +221,8 @@ func builds() []Op {
 		b("build:gen+top(one load)", buildOpts{Target: tGen, Then: tTop}),
 		b("build:mid+top(one load)", buildOpts{Target: tMid, Then: tTop}),
 		b("build:leaf+top(one load)", buildOpts{Target: tLeaf, Then: tTop}),
+		b("interrupt:build:gen(dies between gen's two outputs)", buildOpts{Target: tGen, Interrupt: "out/gen.side"}),
+		b("interrupt:build:mid(dies in mid's body)", buildOpts{Target: tMid, Interrupt: "out/mid"}),
 		b("dry:top", buildOpts{Target: tTop, Dry: true}),
 		b("dry:mid", buildOpts{Target: tMid, Dry: true}),
 		b("gc:full", buildOpts{GC: true}),
@@ -248,6 +250,8 @@ func focused(prop string, thorough bool) []focus {
 			{[]string{"fail:mid", "edit:dir/x.txt", "build:mid", "build:top"}, 8 + d},
 			{[]string{"edit:pkg/b.txt", "edit:src/a.txt", "build:gen+top(one load)", "build:leaf+top(one load)", "build:mid+top(one load)", "build:top"}, 5 + d},
 			{[]string{"dep:diamond", "edit:src/a.txt", "code:helper", "build:leaf", "build:mid", "build:top"}, 6 + d},
+			// builds interrupted by the death of the process inside a body
+			{[]string{"delete:gen/g.txt", "edit:src/a.txt", "code:helper", "interrupt:build:gen(dies between gen's two outputs)", "interrupt:build:mid(dies in mid's body)", "build:mid", "build:top"}, 5 + d},
 			// edits between values that compare equal but can be told apart by the function
 			{[]string{"const:K int<->float", "global:ORD order", "const:K", "build:mid", "build:top"}, 6 + d},
 		}
@@ -302,6 +306,9 @@ func alphabet(prop string, thorough bool) []Op {
 		// pass (C18 second pass, C05)
 		// an injected record-write fault hits whichever targets happen to be saving at that moment:
 		// it belongs to the protocol check only (C18), whose oracle does not depend on who was hit
+		if strings.HasPrefix(o.Name, "interrupt:") && prop != "C01" {
+			continue // interrupted builds: C01 here, every crash point in C03
+		}
 		if o.Name != "dep:cycle" && (o.Name != "sabotage:leaf" || prop == "C18") {
 			all = append(all, o.Name)
 		}
@@ -448,6 +455,9 @@ func (x *searcher) step(s *State, op Op) []*State {
 		return []*State{n}
 	}
 	o := *op.Build
+	if o.Interrupt != "" {
+		return x.interruptedBuild(s, n, o)
+	}
 	o.SnapLoad = o.Dry || o.GC
 	res := x.runBuild(s, o)
 	if res.LoadErr != nil {
@@ -658,6 +668,9 @@ func main() {
 	flag.Parse()
 	if *fDieAt >= 0 {
 		dieChild()
+	}
+	if *fChildRoot != "" {
+		interruptChild()
 	}
 	r := vlib.Start(*fProp)
 	x := &searcher{r: r, prop: *fProp, roots: make(chan string, 64)}
